@@ -33,3 +33,27 @@ Definition check_case (c : case) : bool :=
   | Some os => beq os (map snd (c_hist c))
   | None => false
   end.
+
+(* executable form of the properties on the model's own run (guards against vacuous theorems): every notification
+   carries a reason, lists no resolved alert when send_resolved is off, and every log write follows a successful
+   send in the same step or is the empty-firing bookkeeping write *)
+Definition outs_ok (cfg : gcfg) (o : list out) : bool :=
+  forallb (fun x => match x with
+                    | ONotify i r sent _ =>
+                        negb (bool_decide (r = RNo)) &&
+                        match g_ints cfg !! i with
+                        | Some ic => i_send_resolved ic || forallb (fun f => negb (f_res f)) sent
+                        | None => false
+                        end
+                    | _ => true end) o &&
+  match o with
+  | [OLog _ F _ _] => is_nil F
+  | [ONotify i _ _ OK; OLog j _ _ _] => bool_decide (i = j)
+  | _ => forallb (fun x => match x with OLog _ _ _ _ => false | _ => true end) o
+  end.
+
+Definition prop_case (c : case) : bool :=
+  match run_outs (c_cfg c) (init (c_cfg c) (c_t0 c)) (c_hist c) with
+  | Some os => forallb (outs_ok (c_cfg c)) os
+  | None => true
+  end.
